@@ -172,8 +172,10 @@ int32_t psSignHashRsa(psPool_t *pool,
     else
     {
         *out = sig;
-        *outLen = sigLen;
     }
+    /* Also for a preallocated buffer: callers keep the length (DTLS caches
+       the ServerKeyExchange signature for retransmission with it). */
+    *outLen = sigLen;
 
     return PS_SUCCESS;
 }
